@@ -19,7 +19,7 @@ open OllamaVerif.Memory
 /-- per-GPU layer counts of the plan (what `TensorSplit` prints when there are ≥ 2 GPUs) -/
 def planCounts (inp : Inp) : List Nat := (plan (mkCore inp) inp.gpus).gs.map (·.count)
 
-/-- **The no-wrap guard**, a decidable predicate on the estimator's inputs (through the
+/-- **The no-wrap guard** (theorems below are about the pinned code, `inp.ovSafe = false`), a decidable predicate on the estimator's inputs (through the
     constants `mkCore` derives from them, each already a uint64):
     * for every GPU `g` and every layer size `L` the estimator may try on it (each block's
       `layerSize`, and the output layer):
@@ -56,7 +56,7 @@ theorem noWrap_of_small (inp : Inp)
       · exact h7 L hL
     unfold Room W
     rw [mkCore_overhead]
-    omega
+    split <;> omega
   · have hsum : ∀ (l : List Gpu), (∀ g ∈ l, g.free < 2 ^ 40) →
         (l.map (·.free)).sum ≤ l.length * 2 ^ 40 := by
       intro l
@@ -160,11 +160,11 @@ theorem cpu_zero (inp : Inp) (h : inp.lib = Lib.cpu) :
     size `a`: either nothing at all was put on it (`a = 0`, the GPU was not admitted) or
     `a + overhead ≤ free`; and strictly below for every GPU that received a layer.  (`a` includes
     the GPU minimum, the one-layer buffer, gpu-zero projector overhead, layers, graph.) -/
-theorem alloc_le_free_partial (inp : Inp) (hnw : NoWrap inp) (i : Nat) (g : Gpu) (a : Nat)
+theorem alloc_le_free_partial (inp : Inp) (hv : inp.ovSafe = false) (hnw : NoWrap inp) (i : Nat) (g : Gpu) (a : Nat)
     (hg : inp.gpus[i]? = some g) (ha : (estimate inp).sizes[i]? = some a) :
     (a = 0 ∨ a + inp.overhead ≤ g.free) ∧
     (∀ n, (planCounts inp)[i]? = some n → 0 < n → a + inp.overhead < g.free) := by
-  obtain ⟨hfin, hfree⟩ := plan_final (mkCore inp) inp.gpus hnw.1
+  obtain ⟨hfin, hfree⟩ := plan_final (mkCore inp) (by rw [mkCore_ovSafe]; exact hv) inp.gpus hnw.1
   obtain ⟨_, hc | hc⟩ := estimate_cases inp
   · rw [hc.2.2.2.2.1] at ha; simp at ha
   · rw [hc.2.2.2.2.1, List.getElem?_map] at ha
@@ -186,10 +186,10 @@ theorem alloc_le_free_partial (inp : Inp) (hnw : NoWrap inp) (i : Nat) (g : Gpu)
       exact hok.2 (by omega)
 
 /-- **TotalSize ≥ VRAMSize**, and VRAMSize is the exact sum of the per-GPU sizes. -/
-theorem total_ge_vram_partial (inp : Inp) (hnw : NoWrap inp) :
+theorem total_ge_vram_partial (inp : Inp) (hv : inp.ovSafe = false) (hnw : NoWrap inp) :
     (estimate inp).vram ≤ (estimate inp).total ∧
     (0 < (estimate inp).layers → (estimate inp).vram = (estimate inp).sizes.sum) := by
-  obtain ⟨hfin, hfree⟩ := plan_final (mkCore inp) inp.gpus hnw.1
+  obtain ⟨hfin, hfree⟩ := plan_final (mkCore inp) (by rw [mkCore_ovSafe]; exact hv) inp.gpus hnw.1
   have hov := plan_overflow_le (mkCore inp) inp.gpus
   have hle := sum_alloc_le (plan (mkCore inp) inp.gpus).gs (fun s hs => (hfin s hs).alloc_le)
   rw [hfree] at hle
